@@ -250,6 +250,13 @@ step = self.step + 1
             s.ob("C19.3", con3 + tag, cf.get("reward") == rews[0], "StepContext.reward is the step's env.reward(...) result (not a bootstrapped or shaped value)",
                  loc3, key="ctx-reward", detail=show(cf.get("reward", NONE), maxlen=260),
                  necessary_for="logged episode returns are sums of the rewards the environment produced")
+            # ... and that reward is the one of the transition taken: evaluated on (state.env_state, the successor produced by THIS step's
+            # env.transition) - not on the state the auto-reset put in the successor's place
+            trans3 = [x for x in walk(p3.ret) if isinstance(x, tuple) and x and x[0] == "call" and x[1] == ("attr", ("param", "env"), "transition")]
+            from .util import bind_args as _ba
+            ok_rw = len(trans3) == 1 and len(rews[0][2]) >= 3 and rews[0][2][0] == ("attr", ("param", "state"), "env_state") and rews[0][2][2] == trans3[0]
+            s.ob("C19.3", con3 + tag, ok_rw, "the reported reward is env.reward(state.env_state, action, successor of this step's transition)", loc3, key="ctx-reward-transition",
+                 detail=show(rews[0], maxlen=260), necessary_for="the episode return is the sum of the rewards of the transitions taken (the last one included, before the auto-reset)")
             s.ob("C19.3", con3 + tag, nz3.canon(cf.get("done", NONE)) == nz3.canon(("bin", "BitOr", terms[0], truncs[0])),
                  "StepContext.done == terminal | truncate of the successor", loc3, key="ctx-done", detail=show(cf.get("done", NONE), maxlen=200),
                  necessary_for="statistics are updated at every episode end and only there")
